@@ -120,47 +120,85 @@ pub fn canon(b: &[u8]) -> bool {
     ok
 }
 
-//@ harness name=des_frame prop=C15,C20 tier=quick bits=1088 est=130 desc="encrypt_block/decrypt_block on an arbitrary Des state and block return (no panic/overflow) and leave the instance bytes unchanged; nothing abstracted"
+//@ harness name=des_frame prop=C15,C20 tier=quick bits=1088 est=95 need=4 desc="encrypt_block/decrypt_block on an arbitrary Des state and block return (no panic/overflow) and leave the instance bytes unchanged; nothing abstracted"
 g_frame!(des_frame, Des, 8, canon);
-//@ harness name=tdes_ede3_frame prop=C15,C20 tier=quick bits=3136 stub=1 desc="encrypt/decrypt on an arbitrary TdesEde3 state: total, instance unchanged (single DES uninterpreted, keyed by the subkey array)"
+//@ harness name=tdes_ede3_frame prop=C15,C20 tier=quick bits=3136 stub=1 est=40 desc="encrypt/decrypt on an arbitrary TdesEde3 state: total, instance unchanged (single DES uninterpreted, keyed by the subkey array)"
 g_frame!(tdes_ede3_frame, TdesEde3, 8, canon, stubs: [(crate::des::Des::encrypt, stub_kd_enc), (crate::des::Des::decrypt, stub_kd_dec)]);
-//@ harness name=tdes_ede2_frame prop=C15,C20 tier=quick bits=2112 stub=1 desc="encrypt/decrypt on an arbitrary TdesEde2 state: total, instance unchanged (single DES uninterpreted, keyed by the subkey array)"
+//@ harness name=tdes_ede2_frame prop=C15,C20 tier=quick bits=2112 stub=1 est=40 desc="encrypt/decrypt on an arbitrary TdesEde2 state: total, instance unchanged (single DES uninterpreted, keyed by the subkey array)"
 g_frame!(tdes_ede2_frame, TdesEde2, 8, canon, stubs: [(crate::des::Des::encrypt, stub_kd_enc), (crate::des::Des::decrypt, stub_kd_dec)]);
-//@ harness name=tdes_eee3_frame prop=C15,C20 tier=quick bits=3136 stub=1 desc="encrypt/decrypt on an arbitrary TdesEee3 state: total, instance unchanged (single DES uninterpreted, keyed by the subkey array)"
+//@ harness name=tdes_eee3_frame prop=C15,C20 tier=quick bits=3136 stub=1 est=40 desc="encrypt/decrypt on an arbitrary TdesEee3 state: total, instance unchanged (single DES uninterpreted, keyed by the subkey array)"
 g_frame!(tdes_eee3_frame, TdesEee3, 8, canon, stubs: [(crate::des::Des::encrypt, stub_kd_enc), (crate::des::Des::decrypt, stub_kd_dec)]);
-//@ harness name=tdes_eee2_frame prop=C15,C20 tier=quick bits=2112 stub=1 desc="encrypt/decrypt on an arbitrary TdesEee2 state: total, instance unchanged (single DES uninterpreted, keyed by the subkey array)"
+//@ harness name=tdes_eee2_frame prop=C15,C20 tier=quick bits=2112 stub=1 est=30 desc="encrypt/decrypt on an arbitrary TdesEee2 state: total, instance unchanged (single DES uninterpreted, keyed by the subkey array)"
 g_frame!(tdes_eee2_frame, TdesEee2, 8, canon, stubs: [(crate::des::Des::encrypt, stub_kd_enc), (crate::des::Des::decrypt, stub_kd_dec)]);
 
 // C15: mixed-direction history on one instance and construction history (see generic.rs)
-//@ harness name=des_mixed prop=C15 tier=quick bits=1152 stub=1 est=100 desc="Des: on one arbitrary-state instance the history enc(x); dec(x); dec(y); enc(y) returns for dec(x) and enc(y) what a pristine instance with the same state returns; instance bytes unchanged (cipher function f uninterpreted; IP/FP/rounds real; totality with nothing abstracted is des_frame)"
+//@ harness name=des_mixed prop=C15 tier=quick bits=1152 stub=1 est=130 need=6 desc="Des: on one arbitrary-state instance the history enc(x); dec(x); dec(y); enc(y) returns for dec(x) and enc(y) what a pristine instance with the same state returns; instance bytes unchanged (cipher function f uninterpreted; IP/FP/rounds real; totality with nothing abstracted is des_frame)"
 g_mixed!(des_mixed, Des, 8, canon, stubs: [(crate::utils::f, stub_xf)]);
-//@ harness name=tdes_ede3_mixed prop=C15,C20 tier=quick bits=3200 stub=1 desc="TdesEde3: mixed-direction history enc(x); dec(x); dec(y); enc(y) agrees with a pristine instance; instance bytes unchanged (f uninterpreted)"
+//@ harness name=tdes_ede3_mixed prop=C15,C20 tier=quick bits=3200 stub=1 est=95 need=6 desc="TdesEde3: mixed-direction history enc(x); dec(x); dec(y); enc(y) agrees with a pristine instance; instance bytes unchanged (f uninterpreted)"
 g_mixed!(tdes_ede3_mixed, TdesEde3, 8, canon, stubs: [(crate::des::Des::encrypt, stub_kd_enc), (crate::des::Des::decrypt, stub_kd_dec)]);
-//@ harness name=tdes_eee2_mixed prop=C15,C20 tier=quick bits=2176 stub=1 desc="TdesEee2: mixed-direction history agrees with a pristine instance; instance bytes unchanged (f uninterpreted)"
+//@ harness name=tdes_eee2_mixed prop=C15,C20 tier=quick bits=2176 stub=1 est=80 need=5 desc="TdesEee2: mixed-direction history agrees with a pristine instance; instance bytes unchanged (f uninterpreted)"
 g_mixed!(tdes_eee2_mixed, TdesEee2, 8, canon, stubs: [(crate::des::Des::encrypt, stub_kd_enc), (crate::des::Des::decrypt, stub_kd_dec)]);
-//@ harness name=des_ctor_history prop=C15 tier=quick bits=192 est=300 desc="Des: history new(k2) in a fresh process, new(k1), new(k2), new(k3), new(k1): both constructions from k2 give the same subkeys and both from k1 do, all keys k1, k2, k3"
+//@ harness name=des_ctor_history prop=C15 tier=quick bits=192 est=20 desc="Des: history new(k2) in a fresh process, new(k1), new(k2), new(k3), new(k1): both constructions from k2 give the same subkeys and both from k1 do, all keys k1, k2, k3"
 g_ctor_history!(des_ctor_history, Des, 8, generic::none);
 //@ harness name=tdes_ede3_ctor_history prop=C15 tier=thorough bits=576 est=1500 mem=24 desc="TdesEde3: construction history new(k2); new(k1); new(k2); new(k3); new(k1) gives the same state for equal keys, all keys"
 g_ctor_history!(tdes_ede3_ctor_history, TdesEde3, 24, generic::none);
 
 // C04: every block count n = 0, 1, 2 (enumerated), all block contents and all states symbolic; one harness per direction.
-//@ harness name=des_blocks_enc prop=C04,C20 tier=quick bits=1152 stub=1 desc="Des encrypt: multi-block in place / multi-block b2b (n = 0,1,2) / single b2b equal per-block in-place calls; separate input unchanged; blocks >= n and mismatched-length outputs untouched; arbitrary state (f uninterpreted)"
+//@ harness name=des_blocks_enc prop=C04,C20 tier=thorough bits=1152 stub=1 desc="Des encrypt: multi-block in place / multi-block b2b (n = 0,1,2) / single b2b equal per-block in-place calls; separate input unchanged; blocks >= n and mismatched-length outputs untouched; arbitrary state (f uninterpreted)"
 g_blocks1!(des_blocks_enc, Des, 8, 2, canon, enc, stubs: [(crate::utils::f, stub_xf)]);
-//@ harness name=des_blocks_dec prop=C04,C20 tier=quick bits=1152 stub=1 desc="Des decrypt: same as des_blocks_enc"
+//@ harness name=des_blocks_dec prop=C04,C20 tier=thorough bits=1152 stub=1 desc="Des decrypt: same as des_blocks_enc"
 g_blocks1!(des_blocks_dec, Des, 8, 2, canon, dec, stubs: [(crate::utils::f, stub_xf)]);
-//@ harness name=tdes_ede3_blocks_enc prop=C04,C20 tier=quick bits=3200 stub=1 desc="TdesEde3 encrypt: multi-block / b2b calls equal per-block calls (n = 0,1,2); arbitrary state (f uninterpreted)"
+//@ harness name=tdes_ede3_blocks_enc prop=C04,C20 tier=thorough bits=3200 stub=1 desc="TdesEde3 encrypt: multi-block / b2b calls equal per-block calls (n = 0,1,2); arbitrary state (f uninterpreted)"
 g_blocks1!(tdes_ede3_blocks_enc, TdesEde3, 8, 2, canon, enc, stubs: [(crate::des::Des::encrypt, stub_kd_enc), (crate::des::Des::decrypt, stub_kd_dec)]);
-//@ harness name=tdes_ede3_blocks_dec prop=C04,C20 tier=quick bits=3200 stub=1 desc="TdesEde3 decrypt: multi-block / b2b calls equal per-block calls (n = 0,1,2); arbitrary state (f uninterpreted)"
+//@ harness name=tdes_ede3_blocks_dec prop=C04,C20 tier=thorough bits=3200 stub=1 desc="TdesEde3 decrypt: multi-block / b2b calls equal per-block calls (n = 0,1,2); arbitrary state (f uninterpreted)"
 g_blocks1!(tdes_ede3_blocks_dec, TdesEde3, 8, 2, canon, dec, stubs: [(crate::des::Des::encrypt, stub_kd_enc), (crate::des::Des::decrypt, stub_kd_dec)]);
-//@ harness name=tdes_ede2_blocks_enc prop=C04,C20 tier=quick bits=2176 stub=1 desc="TdesEde2 encrypt: multi-block / b2b calls equal per-block calls; arbitrary state (f uninterpreted)"
+//@ harness name=tdes_ede2_blocks_enc prop=C04,C20 tier=thorough bits=2176 stub=1 desc="TdesEde2 encrypt: multi-block / b2b calls equal per-block calls; arbitrary state (f uninterpreted)"
 g_blocks1!(tdes_ede2_blocks_enc, TdesEde2, 8, 2, canon, enc, stubs: [(crate::des::Des::encrypt, stub_kd_enc), (crate::des::Des::decrypt, stub_kd_dec)]);
-//@ harness name=tdes_ede2_blocks_dec prop=C04,C20 tier=quick bits=2176 stub=1 desc="TdesEde2 decrypt: multi-block / b2b calls equal per-block calls; arbitrary state (f uninterpreted)"
+//@ harness name=tdes_ede2_blocks_dec prop=C04,C20 tier=thorough bits=2176 stub=1 desc="TdesEde2 decrypt: multi-block / b2b calls equal per-block calls; arbitrary state (f uninterpreted)"
 g_blocks1!(tdes_ede2_blocks_dec, TdesEde2, 8, 2, canon, dec, stubs: [(crate::des::Des::encrypt, stub_kd_enc), (crate::des::Des::decrypt, stub_kd_dec)]);
-//@ harness name=tdes_eee3_blocks_enc prop=C04,C20 tier=quick bits=3200 stub=1 desc="TdesEee3 encrypt: multi-block / b2b calls equal per-block calls; arbitrary state (f uninterpreted)"
+//@ harness name=tdes_eee3_blocks_enc prop=C04,C20 tier=thorough bits=3200 stub=1 desc="TdesEee3 encrypt: multi-block / b2b calls equal per-block calls; arbitrary state (f uninterpreted)"
 g_blocks1!(tdes_eee3_blocks_enc, TdesEee3, 8, 2, canon, enc, stubs: [(crate::des::Des::encrypt, stub_kd_enc), (crate::des::Des::decrypt, stub_kd_dec)]);
-//@ harness name=tdes_eee3_blocks_dec prop=C04,C20 tier=quick bits=3200 stub=1 desc="TdesEee3 decrypt: multi-block / b2b calls equal per-block calls; arbitrary state (f uninterpreted)"
+//@ harness name=tdes_eee3_blocks_dec prop=C04,C20 tier=thorough bits=3200 stub=1 desc="TdesEee3 decrypt: multi-block / b2b calls equal per-block calls; arbitrary state (f uninterpreted)"
 g_blocks1!(tdes_eee3_blocks_dec, TdesEee3, 8, 2, canon, dec, stubs: [(crate::des::Des::encrypt, stub_kd_enc), (crate::des::Des::decrypt, stub_kd_dec)]);
-//@ harness name=tdes_eee2_blocks_enc prop=C04,C20 tier=quick bits=2176 stub=1 desc="TdesEee2 encrypt: multi-block / b2b calls equal per-block calls; arbitrary state (f uninterpreted)"
+//@ harness name=tdes_eee2_blocks_enc prop=C04,C20 tier=thorough bits=2176 stub=1 desc="TdesEee2 encrypt: multi-block / b2b calls equal per-block calls; arbitrary state (f uninterpreted)"
 g_blocks1!(tdes_eee2_blocks_enc, TdesEee2, 8, 2, canon, enc, stubs: [(crate::des::Des::encrypt, stub_kd_enc), (crate::des::Des::decrypt, stub_kd_dec)]);
-//@ harness name=tdes_eee2_blocks_dec prop=C04,C20 tier=quick bits=2176 stub=1 desc="TdesEee2 decrypt: multi-block / b2b calls equal per-block calls; arbitrary state (f uninterpreted)"
+//@ harness name=tdes_eee2_blocks_dec prop=C04,C20 tier=thorough bits=2176 stub=1 desc="TdesEee2 decrypt: multi-block / b2b calls equal per-block calls; arbitrary state (f uninterpreted)"
 g_blocks1!(tdes_eee2_blocks_dec, TdesEee2, 8, 2, canon, dec, stubs: [(crate::des::Des::encrypt, stub_kd_enc), (crate::des::Des::decrypt, stub_kd_dec)]);
+
+// ---- quick forms (two block computations each, see generic.rs g_b2b1 / g_frame2)
+//@ harness name=des_b2b_enc prop=C04,C20 tier=quick bits=1152 stub=1 est=15 desc="Des encrypt: single-block b2b into an output buffer pre-filled with arbitrary bytes equals the in-place call; input unchanged; arbitrary canonical state (f uninterpreted)"
+g_b2b1!(des_b2b_enc, Des, 8, canon, enc, stubs: [(crate::utils::f, stub_xf)]);
+//@ harness name=des_b2b_dec prop=C04,C20 tier=quick bits=1152 stub=1 est=15 desc="Des decrypt: as des_b2b_enc"
+g_b2b1!(des_b2b_dec, Des, 8, canon, dec, stubs: [(crate::utils::f, stub_xf)]);
+//@ harness name=tdes_ede3_b2b_enc prop=C04,C20 tier=quick bits=3200 stub=1 est=15 desc="TdesEde3 enc: single-block b2b into an output buffer pre-filled with arbitrary bytes equals the in-place call; input unchanged; arbitrary canonical state (single DES uninterpreted, keyed by the subkey array)"
+g_b2b1!(tdes_ede3_b2b_enc, TdesEde3, 8, canon, enc, stubs: [(crate::des::Des::encrypt, stub_kd_enc), (crate::des::Des::decrypt, stub_kd_dec)]);
+//@ harness name=tdes_ede3_frame2_enc prop=C15,C20 tier=quick bits=3136 stub=1 est=25 desc="TdesEde3 enc: the same call twice on one arbitrary-canonical-state instance gives the same result and leaves every byte of the instance unchanged (single DES uninterpreted, keyed by the subkey array)"
+g_frame2!(tdes_ede3_frame2_enc, TdesEde3, 8, canon, enc, stubs: [(crate::des::Des::encrypt, stub_kd_enc), (crate::des::Des::decrypt, stub_kd_dec)]);
+//@ harness name=tdes_ede3_b2b_dec prop=C04,C20 tier=quick bits=3200 stub=1 est=20 desc="TdesEde3 dec: single-block b2b into an output buffer pre-filled with arbitrary bytes equals the in-place call; input unchanged; arbitrary canonical state (single DES uninterpreted, keyed by the subkey array)"
+g_b2b1!(tdes_ede3_b2b_dec, TdesEde3, 8, canon, dec, stubs: [(crate::des::Des::encrypt, stub_kd_enc), (crate::des::Des::decrypt, stub_kd_dec)]);
+//@ harness name=tdes_ede3_frame2_dec prop=C15,C20 tier=quick bits=3136 stub=1 est=25 desc="TdesEde3 dec: the same call twice on one arbitrary-canonical-state instance gives the same result and leaves every byte of the instance unchanged (single DES uninterpreted, keyed by the subkey array)"
+g_frame2!(tdes_ede3_frame2_dec, TdesEde3, 8, canon, dec, stubs: [(crate::des::Des::encrypt, stub_kd_enc), (crate::des::Des::decrypt, stub_kd_dec)]);
+//@ harness name=tdes_ede2_b2b_enc prop=C04,C20 tier=quick bits=3200 stub=1 est=20 desc="TdesEde2 enc: single-block b2b into an output buffer pre-filled with arbitrary bytes equals the in-place call; input unchanged; arbitrary canonical state (single DES uninterpreted, keyed by the subkey array)"
+g_b2b1!(tdes_ede2_b2b_enc, TdesEde2, 8, canon, enc, stubs: [(crate::des::Des::encrypt, stub_kd_enc), (crate::des::Des::decrypt, stub_kd_dec)]);
+//@ harness name=tdes_ede2_frame2_enc prop=C15,C20 tier=quick bits=3136 stub=1 est=25 desc="TdesEde2 enc: the same call twice on one arbitrary-canonical-state instance gives the same result and leaves every byte of the instance unchanged (single DES uninterpreted, keyed by the subkey array)"
+g_frame2!(tdes_ede2_frame2_enc, TdesEde2, 8, canon, enc, stubs: [(crate::des::Des::encrypt, stub_kd_enc), (crate::des::Des::decrypt, stub_kd_dec)]);
+//@ harness name=tdes_ede2_b2b_dec prop=C04,C20 tier=quick bits=3200 stub=1 est=20 desc="TdesEde2 dec: single-block b2b into an output buffer pre-filled with arbitrary bytes equals the in-place call; input unchanged; arbitrary canonical state (single DES uninterpreted, keyed by the subkey array)"
+g_b2b1!(tdes_ede2_b2b_dec, TdesEde2, 8, canon, dec, stubs: [(crate::des::Des::encrypt, stub_kd_enc), (crate::des::Des::decrypt, stub_kd_dec)]);
+//@ harness name=tdes_ede2_frame2_dec prop=C15,C20 tier=quick bits=3136 stub=1 est=25 desc="TdesEde2 dec: the same call twice on one arbitrary-canonical-state instance gives the same result and leaves every byte of the instance unchanged (single DES uninterpreted, keyed by the subkey array)"
+g_frame2!(tdes_ede2_frame2_dec, TdesEde2, 8, canon, dec, stubs: [(crate::des::Des::encrypt, stub_kd_enc), (crate::des::Des::decrypt, stub_kd_dec)]);
+//@ harness name=tdes_eee3_b2b_enc prop=C04,C20 tier=quick bits=3200 stub=1 est=20 desc="TdesEee3 enc: single-block b2b into an output buffer pre-filled with arbitrary bytes equals the in-place call; input unchanged; arbitrary canonical state (single DES uninterpreted, keyed by the subkey array)"
+g_b2b1!(tdes_eee3_b2b_enc, TdesEee3, 8, canon, enc, stubs: [(crate::des::Des::encrypt, stub_kd_enc), (crate::des::Des::decrypt, stub_kd_dec)]);
+//@ harness name=tdes_eee3_frame2_enc prop=C15,C20 tier=quick bits=3136 stub=1 est=25 desc="TdesEee3 enc: the same call twice on one arbitrary-canonical-state instance gives the same result and leaves every byte of the instance unchanged (single DES uninterpreted, keyed by the subkey array)"
+g_frame2!(tdes_eee3_frame2_enc, TdesEee3, 8, canon, enc, stubs: [(crate::des::Des::encrypt, stub_kd_enc), (crate::des::Des::decrypt, stub_kd_dec)]);
+//@ harness name=tdes_eee3_b2b_dec prop=C04,C20 tier=quick bits=3200 stub=1 est=15 desc="TdesEee3 dec: single-block b2b into an output buffer pre-filled with arbitrary bytes equals the in-place call; input unchanged; arbitrary canonical state (single DES uninterpreted, keyed by the subkey array)"
+g_b2b1!(tdes_eee3_b2b_dec, TdesEee3, 8, canon, dec, stubs: [(crate::des::Des::encrypt, stub_kd_enc), (crate::des::Des::decrypt, stub_kd_dec)]);
+//@ harness name=tdes_eee3_frame2_dec prop=C15,C20 tier=quick bits=3136 stub=1 est=30 desc="TdesEee3 dec: the same call twice on one arbitrary-canonical-state instance gives the same result and leaves every byte of the instance unchanged (single DES uninterpreted, keyed by the subkey array)"
+g_frame2!(tdes_eee3_frame2_dec, TdesEee3, 8, canon, dec, stubs: [(crate::des::Des::encrypt, stub_kd_enc), (crate::des::Des::decrypt, stub_kd_dec)]);
+//@ harness name=tdes_eee2_b2b_enc prop=C04,C20 tier=quick bits=3200 stub=1 est=20 desc="TdesEee2 enc: single-block b2b into an output buffer pre-filled with arbitrary bytes equals the in-place call; input unchanged; arbitrary canonical state (single DES uninterpreted, keyed by the subkey array)"
+g_b2b1!(tdes_eee2_b2b_enc, TdesEee2, 8, canon, enc, stubs: [(crate::des::Des::encrypt, stub_kd_enc), (crate::des::Des::decrypt, stub_kd_dec)]);
+//@ harness name=tdes_eee2_frame2_enc prop=C15,C20 tier=quick bits=3136 stub=1 est=25 desc="TdesEee2 enc: the same call twice on one arbitrary-canonical-state instance gives the same result and leaves every byte of the instance unchanged (single DES uninterpreted, keyed by the subkey array)"
+g_frame2!(tdes_eee2_frame2_enc, TdesEee2, 8, canon, enc, stubs: [(crate::des::Des::encrypt, stub_kd_enc), (crate::des::Des::decrypt, stub_kd_dec)]);
+//@ harness name=tdes_eee2_b2b_dec prop=C04,C20 tier=quick bits=3200 stub=1 est=20 desc="TdesEee2 dec: single-block b2b into an output buffer pre-filled with arbitrary bytes equals the in-place call; input unchanged; arbitrary canonical state (single DES uninterpreted, keyed by the subkey array)"
+g_b2b1!(tdes_eee2_b2b_dec, TdesEee2, 8, canon, dec, stubs: [(crate::des::Des::encrypt, stub_kd_enc), (crate::des::Des::decrypt, stub_kd_dec)]);
+//@ harness name=tdes_eee2_frame2_dec prop=C15,C20 tier=quick bits=3136 stub=1 est=25 desc="TdesEee2 dec: the same call twice on one arbitrary-canonical-state instance gives the same result and leaves every byte of the instance unchanged (single DES uninterpreted, keyed by the subkey array)"
+g_frame2!(tdes_eee2_frame2_dec, TdesEee2, 8, canon, dec, stubs: [(crate::des::Des::encrypt, stub_kd_enc), (crate::des::Des::decrypt, stub_kd_dec)]);
